@@ -39,7 +39,7 @@ PROPS["C19"] = {
     "design_ref": "DESIGN.md section 5, C19",
 }
 PROPS["C16"] = {
-    "units": {"kani": ["c16_serialization", "c16_pack"]},
+    "units": {"kani": ["c16_serialization", "c16_pack", "c10_bytes"]},
     "scope": "pure-Rust byte decoders: the automaton Serialize::deserialize family, pack/unpack of selector bytes, and (shared with C10) the canonical-field-encoding decoders",
     "not_decided": ["VerifyingKey::read_from_cs, ZkStdLibArch::read (bincode), ZkStdLib::configure, ParamsKZG::read_custom, IR loading: generic / iterator / FFI code",
                     "the out-of-range column-count and fixed-commitment-count panics described in the property text are NOT reachable by this family here",
@@ -52,7 +52,7 @@ PROPS["C16"] = {
     "design_ref": "DESIGN.md section 5, C16",
 }
 PROPS["C10"] = {
-    "units": {"verus": ["c10_jubjub_fr"], "kani": []},
+    "units": {"verus": ["c10_jubjub_fr"], "kani": ["c10_bytes"]},
     "scope": "the pure-Rust field code (Jubjub Fr: all limb arithmetic, Montgomery reduction, decoders) and the shipped constants; limb primitives adc/sbb/mac; canonical-encoding predicates of the BLS12-381 fields",
     "not_decided": ["every blst_fr_* / blst_fp_* / blst_fp2/6/12_* routine: the run-time Fq/Fp/Fp2/Fp6/Fp12 arithmetic is C/assembly behind FFI",
                     "Fr::pow, pow_vartime, invert, sqrt (loops / 300-step addition chain over square/mul)",
@@ -65,10 +65,24 @@ PROPS["C10"] = {
     "technique": "Verus contracts (requires/ensures + lemmas) on extracted real functions; Kani harness contracts for byte-level code",
     "design_ref": "DESIGN.md section 5, C10",
 }
+PROPS["C11"] = {
+    "units": {"polyvc": ["c11_jubjub"]},
+    "scope": "the pure-Rust Jubjub group law (all representation mixes of add/sub, double, negation, conversions, equality predicates) and the Rust-level coordinate accessors / constructors / equality of BLS12-381 G1 and G2",
+    "not_decided": ["all blst point routines (add/double/mult/compress/uncompress/on_curve/in_g1) and therefore the checked-decoder clause for G1/G2",
+                    "Jubjub multiply (bit loop), from_bytes_inner (CtOption closures, sqrt), batch_normalize", "secp256k1 / Curve25519 (wrappers over external crates)",
+                    "BN254 (macro-generated, dev-only)", "hash_to_curve", "non-vanishing of the Edwards denominators (d non-square): assumed"],
+    "trusted_base": [],
+    "assumptions": ["the field type's + - * square double invert are the field operations (blst for the Jubjub base field)",
+                    "a blst_p1/blst_p2 (x,y,z) denotes the affine point (x/z^2, y/z^3), z = 0 the identity (blst's Jacobian representation)"],
+    "claim": "Proof, as polynomial identities valid over every commutative ring, that every pure-Rust Jubjub group operation returns a representative of the twisted-Edwards affine sum / difference / double / negation of the points its arguments denote and re-establishes the representation invariant, that the equality predicates compare exactly the cross-multiplied coordinates, and that the G1/G2 Jacobian accessors, constructors and ct_eq are consistent with blst's Jacobian representation. blst's own point arithmetic and decoders are NOT decided.",
+    "level_note": "PolyVC: own VC generator (symbolic execution of the extracted body; goals decided by exact Groebner reduction in sympy). Trusted: the PolyVC parser/executor, sympy; the field implementation and blst's representation are stated assumptions.",
+    "technique": "contract-based VC generation over field-polynomial code (ideal membership by Groebner reduction)",
+    "design_ref": "DESIGN.md section 1.3 and section 5, C11",
+}
 
 # claimed in DESIGN.md, machinery not built yet in this revision
 PENDING = {}
-for _p in ("C05", "C06", "C11"):
+for _p in ("C05", "C06"):
     PENDING[_p] = "planned in DESIGN.md section 5 but the check is not built yet in this revision; not claimed until it is"
 
 NOT_APPLICABLE = {
